@@ -478,8 +478,15 @@ func fsLevel[X sigma.Statement, W sigma.Witness, A sigma.Statement, S sigma.Stat
 			if out == "accept" {
 				c.Violation(fmt.Sprintf("%s mutant with a different decoded value accepted proof=%s", tag, hexBytes(m)))
 			}
-			eCtx := fsChallenge(spec.build(), cs.proto.Name(), cs.x.Bytes(), d.a.Bytes(), n)
-			c.emitIf(cs.line("fs", cs.x, d.a, d.e, d.z, hexBytes(eCtx)), out)
+			// the model evaluates a sample of these (each costs two scalar multiplications there)
+			pct := 15
+			if c.Thorough() {
+				pct = 30
+			}
+			if r.IntN(100) < pct {
+				eCtx := fsChallenge(spec.build(), cs.proto.Name(), cs.x.Bytes(), d.a.Bytes(), n)
+				c.emitIf(cs.line("fs", cs.x, d.a, d.e, d.z, hexBytes(eCtx)), out)
+			}
 		}
 	}
 }
